@@ -1,1 +1,262 @@
-//! oracle for twofish — to be written from the specification
+//! Twofish (Schneier, Kelsey, Whiting, Wagner, Hall, Ferguson: "Twofish: A 128-Bit Block Cipher"), written from
+//! the paper (section 4): q0/q1 from the 4-bit tables t0..t3, MDS over GF(2^8)/x^8+x^6+x^5+x^3+1 (0x169),
+//! RS over GF(2^8)/x^8+x^6+x^3+x^2+1 (0x14D), h for k = 2, 3, 4, g(X) = h(X, S), 40 expanded key words,
+//! 16 rounds with PHT, 1-bit rotations and whitening.  All words little-endian.
+
+/// t0..t3 of q0 and q1 (data of the paper, section 4.3.5).
+pub const T_Q: [[[u8; 16]; 4]; 2] = [
+    [
+        [0x8, 0x1, 0x7, 0xD, 0x6, 0xF, 0x3, 0x2, 0x0, 0xB, 0x5, 0x9, 0xE, 0xC, 0xA, 0x4],
+        [0xE, 0xC, 0xB, 0x8, 0x1, 0x2, 0x3, 0x5, 0xF, 0x4, 0xA, 0x6, 0x7, 0x0, 0x9, 0xD],
+        [0xB, 0xA, 0x5, 0xE, 0x6, 0xD, 0x9, 0x0, 0xC, 0x8, 0xF, 0x3, 0x2, 0x4, 0x7, 0x1],
+        [0xD, 0x7, 0xF, 0x4, 0x1, 0x2, 0x6, 0xE, 0x9, 0xB, 0x3, 0x0, 0x8, 0x5, 0xC, 0xA],
+    ],
+    [
+        [0x2, 0x8, 0xB, 0xD, 0xF, 0x7, 0x6, 0xE, 0x3, 0x1, 0x9, 0x4, 0x0, 0xA, 0xC, 0x5],
+        [0x1, 0xE, 0x2, 0xB, 0x4, 0xC, 0x3, 0x7, 0x6, 0xD, 0xA, 0x5, 0xF, 0x9, 0x0, 0x8],
+        [0x4, 0xC, 0x7, 0x5, 0x1, 0x6, 0x9, 0xA, 0x0, 0xE, 0xD, 0x8, 0x2, 0xB, 0x3, 0xF],
+        [0xB, 0x9, 0x5, 0x1, 0xC, 0x3, 0xD, 0xE, 0x6, 0x4, 0x7, 0xF, 0x2, 0x0, 0x8, 0xA],
+    ],
+];
+
+pub const MDS: [[u8; 4]; 4] = [[0x01, 0xEF, 0x5B, 0x5B], [0x5B, 0xEF, 0xEF, 0x01], [0xEF, 0x5B, 0x01, 0xEF], [0xEF, 0x01, 0xEF, 0x5B]];
+
+pub const RS: [[u8; 8]; 4] = [
+    [0x01, 0xA4, 0x55, 0x87, 0x5A, 0x58, 0xDB, 0x9E],
+    [0xA4, 0x56, 0x82, 0xF3, 0x1E, 0xC6, 0x68, 0xE5],
+    [0x02, 0xA1, 0xFC, 0xC1, 0x47, 0xAE, 0x3D, 0x19],
+    [0xA4, 0x55, 0x87, 0x5A, 0x58, 0xDB, 0x9E, 0x03],
+];
+
+pub const MDS_POLY: u16 = 0x169;
+pub const RS_POLY: u16 = 0x14D;
+pub const RHO: u32 = 0x0101_0101;
+
+fn ror4(x: u8) -> u8 {
+    ((x >> 1) | (x << 3)) & 15
+}
+
+/// q_i(x), i in {0, 1}: the fixed 8-bit permutations (section 4.3.5).
+pub fn q(i: usize, x: u8) -> u8 {
+    let t = &T_Q[i];
+    let a0 = x / 16;
+    let b0 = x % 16;
+    let a1 = a0 ^ b0;
+    let b1 = a0 ^ ror4(b0) ^ ((8 * a0) % 16);
+    let a2 = t[0][a1 as usize];
+    let b2 = t[1][b1 as usize];
+    let a3 = a2 ^ b2;
+    let b3 = a2 ^ ror4(b2) ^ ((8 * a2) % 16);
+    let a4 = t[2][a3 as usize];
+    let b4 = t[3][b3 as usize];
+    16 * b4 + a4
+}
+
+/// a * b in GF(2)[x] / poly (poly includes the x^8 term): carry-less product, then reduction.
+pub fn gf_mul(a: u8, b: u8, poly: u16) -> u8 {
+    let mut prod: u16 = 0;
+    let mut i = 0;
+    while i < 8 {
+        if (b >> i) & 1 == 1 {
+            prod ^= (a as u16) << i;
+        }
+        i += 1;
+    }
+    let mut d = 15;
+    while d > 8 {
+        d -= 1; // d = 14 .. 8
+        if (prod >> d) & 1 == 1 {
+            prod ^= poly << (d - 8);
+        }
+    }
+    prod as u8
+}
+
+/// Z = MDS * y (column vector), z0 the least significant byte.
+pub fn mds(y: [u8; 4]) -> u32 {
+    let mut z = [0u8; 4];
+    let mut i = 0;
+    while i < 4 {
+        let mut j = 0;
+        while j < 4 {
+            z[i] ^= gf_mul(MDS[i][j], y[j], MDS_POLY);
+            j += 1;
+        }
+        i += 1;
+    }
+    u32::from_le_bytes(z)
+}
+
+/// (s_{i,0}, .., s_{i,3}) = RS * (m_{8i}, .., m_{8i+7}).
+pub fn rs(m: &[u8; 8]) -> [u8; 4] {
+    let mut s = [0u8; 4];
+    let mut i = 0;
+    while i < 4 {
+        let mut j = 0;
+        while j < 8 {
+            s[i] ^= gf_mul(RS[i][j], m[j], RS_POLY);
+            j += 1;
+        }
+        i += 1;
+    }
+    s
+}
+
+/// h(X, L) with L = (L_0, .., L_{k-1}), k in {2, 3, 4} (section 4.3.2); unused entries of `l` are ignored.
+pub fn h(x: u32, l: &[u32; 4], k: usize) -> u32 {
+    let mut y = x.to_le_bytes();
+    if k == 4 {
+        let l3 = l[3].to_le_bytes();
+        y = [q(1, y[0]) ^ l3[0], q(0, y[1]) ^ l3[1], q(0, y[2]) ^ l3[2], q(1, y[3]) ^ l3[3]];
+    }
+    if k >= 3 {
+        let l2 = l[2].to_le_bytes();
+        y = [q(1, y[0]) ^ l2[0], q(1, y[1]) ^ l2[1], q(0, y[2]) ^ l2[2], q(0, y[3]) ^ l2[3]];
+    }
+    let l1 = l[1].to_le_bytes();
+    let l0 = l[0].to_le_bytes();
+    let y0 = q(1, q(0, q(0, y[0]) ^ l1[0]) ^ l0[0]);
+    let y1 = q(0, q(0, q(1, y[1]) ^ l1[1]) ^ l0[1]);
+    let y2 = q(1, q(1, q(0, y[2]) ^ l1[2]) ^ l0[2]);
+    let y3 = q(0, q(1, q(1, y[3]) ^ l1[3]) ^ l0[3]);
+    mds([y0, y1, y2, y3])
+}
+
+fn key_word(m: &[u8], i: usize) -> u32 {
+    u32::from_le_bytes([m[4 * i], m[4 * i + 1], m[4 * i + 2], m[4 * i + 3]])
+}
+
+/// h(X, M_e) (offset = 0) / h(X, M_o) (offset = 1) for the key bytes m (8k bytes): M_e = (M_0, M_2, ..),
+/// M_o = (M_1, M_3, ..), M_i the little-endian key words.
+pub fn h_key(x: u32, m: &[u8], k: usize, offset: usize) -> u32 {
+    let mut l = [0u32; 4];
+    let mut j = 0;
+    while j < 4 {
+        if j < k {
+            l[j] = key_word(m, 2 * j + offset);
+        }
+        j += 1;
+    }
+    h(x, &l, k)
+}
+
+/// S-box key words S_0 .. S_{k-1} (S_i = RS * key bytes 8i..8i+7), unused entries zero.
+pub fn sbox_key(key: &[u8], k: usize) -> [u32; 4] {
+    let mut s = [0u32; 4];
+    let mut i = 0;
+    while i < 4 {
+        if i < k {
+            let mut m = [0u8; 8];
+            let mut j = 0;
+            while j < 8 {
+                m[j] = key[8 * i + j];
+                j += 1;
+            }
+            s[i] = u32::from_le_bytes(rs(&m));
+        }
+        i += 1;
+    }
+    s
+}
+
+/// g(X) = h(X, S), S = (S_{k-1}, .., S_0); `s` holds S_0 .. S_{k-1}.
+pub fn g(x: u32, s: &[u32; 4], k: usize) -> u32 {
+    let mut l = [0u32; 4];
+    let mut j = 0;
+    while j < 4 {
+        if j < k {
+            l[j] = s[k - 1 - j];
+        }
+        j += 1;
+    }
+    h(x, &l, k)
+}
+
+/// A_i = h(2i rho, M_e), B_i = ROL(h((2i+1) rho, M_o), 8), K_2i = A_i + B_i, K_2i+1 = ROL(A_i + 2 B_i, 9).
+/// `hf(x, key bytes, k, 0/1)` is h(x, M_e / M_o).
+pub fn key_schedule_with<H: Fn(u32, &[u8], usize, usize) -> u32>(key: &[u8], k: usize, hf: H) -> [u32; 40] {
+    let mut out = [0u32; 40];
+    let mut i = 0u32;
+    while i < 20 {
+        let a = hf((2 * i).wrapping_mul(RHO), key, k, 0);
+        let b = hf((2 * i + 1).wrapping_mul(RHO), key, k, 1).rotate_left(8);
+        out[2 * i as usize] = a.wrapping_add(b);
+        out[2 * i as usize + 1] = a.wrapping_add(b).wrapping_add(b).rotate_left(9);
+        i += 1;
+    }
+    out
+}
+
+fn words16(b: &[u8; 16]) -> [u32; 4] {
+    let mut w = [0u32; 4];
+    let mut i = 0;
+    while i < 4 {
+        w[i] = u32::from_le_bytes([b[4 * i], b[4 * i + 1], b[4 * i + 2], b[4 * i + 3]]);
+        i += 1;
+    }
+    w
+}
+fn bytes16(w: &[u32; 4]) -> [u8; 16] {
+    let mut o = [0u8; 16];
+    let mut i = 0;
+    while i < 4 {
+        let b = w[i].to_le_bytes();
+        let mut j = 0;
+        while j < 4 {
+            o[4 * i + j] = b[j];
+            j += 1;
+        }
+        i += 1;
+    }
+    o
+}
+
+/// F(R0, R1, r): T0 = g(R0), T1 = g(ROL(R1, 8)), F0 = T0 + T1 + K_{2r+8}, F1 = T0 + 2 T1 + K_{2r+9}.
+fn f_with<G: Fn(u32) -> u32>(r0: u32, r1: u32, round: usize, k: &[u32; 40], gf: &G) -> (u32, u32) {
+    let t0 = gf(r0);
+    let t1 = gf(r1.rotate_left(8));
+    let f0 = t0.wrapping_add(t1).wrapping_add(k[2 * round + 8]);
+    let f1 = t0.wrapping_add(t1).wrapping_add(t1).wrapping_add(k[2 * round + 9]);
+    (f0, f1)
+}
+
+pub fn encrypt_with<G: Fn(u32) -> u32>(k: &[u32; 40], block: &[u8; 16], gf: G) -> [u8; 16] {
+    let p = words16(block);
+    let mut r = [p[0] ^ k[0], p[1] ^ k[1], p[2] ^ k[2], p[3] ^ k[3]];
+    let mut round = 0;
+    while round < 16 {
+        let (f0, f1) = f_with(r[0], r[1], round, k, &gf);
+        r = [(r[2] ^ f0).rotate_right(1), r[3].rotate_left(1) ^ f1, r[0], r[1]];
+        round += 1;
+    }
+    // C_i = R_{16,(i+2) mod 4} ^ K_{i+4}
+    let c = [r[2] ^ k[4], r[3] ^ k[5], r[0] ^ k[6], r[1] ^ k[7]];
+    bytes16(&c)
+}
+
+pub fn decrypt_with<G: Fn(u32) -> u32>(k: &[u32; 40], block: &[u8; 16], gf: G) -> [u8; 16] {
+    let c = words16(block);
+    // R_16
+    let mut r = [c[2] ^ k[6], c[3] ^ k[7], c[0] ^ k[4], c[1] ^ k[5]];
+    let mut round = 16;
+    while round > 0 {
+        round -= 1;
+        // r = R_{round+1}; R_round,0 = r[2], R_round,1 = r[3]
+        let (f0, f1) = f_with(r[2], r[3], round, k, &gf);
+        r = [r[2], r[3], r[0].rotate_left(1) ^ f0, (r[1] ^ f1).rotate_right(1)];
+    }
+    let p = [r[0] ^ k[0], r[1] ^ k[1], r[2] ^ k[2], r[3] ^ k[3]];
+    bytes16(&p)
+}
+
+/// key: 16, 24 or 32 bytes.
+pub fn encrypt(key: &[u8], block: &[u8; 16]) -> [u8; 16] {
+    let k = key.len() / 8;
+    let s = sbox_key(key, k);
+    encrypt_with(&key_schedule_with(key, k, h_key), block, |x| g(x, &s, k))
+}
+pub fn decrypt(key: &[u8], block: &[u8; 16]) -> [u8; 16] {
+    let k = key.len() / 8;
+    let s = sbox_key(key, k);
+    decrypt_with(&key_schedule_with(key, k, h_key), block, |x| g(x, &s, k))
+}
